@@ -43,8 +43,12 @@ LEVEL_TEXT = (
     "C13_stream_first_obligation: both transfer workers enter the stream context before the file - false on the pre-fix order), "
     "C13_data_closed_stream_first (the same for every parameter set with that order). The restart offset is 0 after any known verb, "
     "failed transfers included (the dispatcher's hand-over rule). "
+    "C13_same_wakeup_contained (one wake-up of the dispatcher with ANY finished tasks in any order: each PathIOError task its own 451, "
+    "every command line dispatched and parse_command re-armed; obligation C13_round_obligation: each task.result() under its own try), "
+    "C13_batch_try_drops (what one try around all results would lose). "
     "Tied to the code by C13_source_obligations / C13_probe_obligations (vm_compute on facts regenerated from server.py / pathio.py) "
-    "and by scripts x every fault position (single, double; three exception classes; three backends) on the real server."
+    "and by scripts x every fault position (single, double; 27 exception classes incl. the TimeoutError family and a real path_timeout expiry; three "
+    "backends) and by the same-wake-up stream (two tasks of one session aligned in one dispatcher round) on the real server."
 )
 LEVEL_NOTE = (
     "Trusted: Coq kernel, py2v (gen_dispatch, gen_faultsites), extraction, simnet, the fault injector (rebuilds each backend method's "
@@ -53,7 +57,7 @@ LEVEL_NOTE = (
     "not use universal_exception."
 )
 TRUSTED = [
-    "fault injector: types.FunctionType re-closure of the shipped methods' decorator stacks around a leaf that raises OSError / ValueError / RuntimeError",
+    "fault injector: types.FunctionType re-closure of the shipped methods' decorator stacks around a leaf that raises (27 classes), outlasts path_timeout, or parks until released",
     "simnet: EOF / open-transport ledger stands for what a TCP peer would observe",
 ]
 ASSUMPTIONS = [
